@@ -1273,6 +1273,21 @@ func addSite(pos token.Pos, kind, sink string, pieces []Piece) {
 var sinkNames = map[string]bool{"Exec": true, "Query": true, "QueryRow": true, "PrepareBatch": true, "Select": true, "ExecContext": true,
 	"QueryContext": true, "QueryRowContext": true, "Prepare": true, "PrepareContext": true, "AsyncInsert": true, "Scan": true}
 
+var nByPkg int
+
+// packages through which a statement can reach a database (clients and drivers); ch-go/proto holds column data
+func dbClientPkg(path string) bool {
+	if strings.HasPrefix(path, "github.com/ClickHouse/ch-go/proto") {
+		return false
+	}
+	for _, p := range []string{"github.com/ClickHouse/clickhouse-go", "github.com/ClickHouse/ch-go", "database/sql", "github.com/jmoiron/sqlx"} {
+		if path == p || strings.HasPrefix(path, p+"/") {
+			return true
+		}
+	}
+	return false
+}
+
 func inScope(dir string) bool {
 	d := filepath.ToSlash(dir)
 	return d == "writer" || strings.HasPrefix(d, "writer/") || d == "ctrl" || strings.HasPrefix(d, "ctrl/")
@@ -1283,6 +1298,20 @@ func (p *pkg) findSinks() {
 		ast.Inspect(f, func(n ast.Node) bool {
 			switch x := n.(type) {
 			case *ast.CallExpr:
+				// round 4 (go/types): whatever its name, a function or method DECLARED in a database client package that takes a
+				// string is a sink too (every string parameter); the column buffers of ch-go/proto carry row data, not statements
+				if fn := calleeFunc(p, x); fn != nil && fn.Pkg() != nil && dbClientPkg(fn.Pkg().Path()) {
+					se, isSel := x.Fun.(*ast.SelectorExpr)
+					if sig, ok := fn.Type().(*types.Signature); ok && !(isSel && sinkNames[se.Sel.Name] && sig.Recv() != nil) {
+						for i := 0; i < sig.Params().Len() && i < len(x.Args); i++ {
+							if b, ok := sig.Params().At(i).Type().Underlying().(*types.Basic); ok && b.Kind() == types.String {
+								addSite(x.Pos(), "statement", fullName(fn)+" (declared in a database client package)", p.classify(x.Args[i], &visit{busy: map[string]bool{}}))
+								nByPkg++
+							}
+						}
+						return true
+					}
+				}
 				se, ok := x.Fun.(*ast.SelectorExpr)
 				if !ok || !sinkNames[se.Sel.Name] {
 					return true
@@ -1371,7 +1400,7 @@ func main() {
 	}
 	sort.Strings(dirs)
 	// type-check the write side; index everything first (definitions are module-wide), then look for sinks
-	re := regexp.MustCompile(`\.(Exec|Query|QueryRow|PrepareBatch|Select|ExecContext|QueryContext|QueryRowContext|Prepare|PrepareContext|AsyncInsert|Scan)\(|\bBody:`)
+	re := regexp.MustCompile(`\.(Exec|Query|QueryRow|PrepareBatch|Select|ExecContext|QueryContext|QueryRowContext|Prepare|PrepareContext|AsyncInsert|Scan)\(|\bBody:|"github.com/ClickHouse/|"database/sql|"github.com/jmoiron/sqlx`)
 	var scope []*pkg
 	for _, d := range dirs {
 		if !inScope(d) {
@@ -1421,7 +1450,7 @@ func main() {
 		cfg = append(cfg, k)
 	}
 	sort.Strings(cfg)
-	out := map[string]any{"sites": sites, "stats": map[string]any{"packages_type_checked": checked, "type_errors": nerrs,
+	out := map[string]any{"sites": sites, "stats": map[string]any{"sinks_recognised_by_declaring_package_(go/types)": nByPkg, "packages_type_checked": checked, "type_errors": nerrs,
 		"pass_through_parameters": len(passReg), "pass_through_without_caller_in_module": entry, "configuration_packages": cfg}}
 	enc := json.NewEncoder(os.Stdout)
 	enc.SetIndent("", " ")
